@@ -518,20 +518,35 @@ def run(ctx):
         return msg
 
     limits = list(range(1, 17)) + [0xff]
+    early = [0x8000]
+
+    def fresh_early():
+        early[0] += 1
+        return mk_record(rng, early[0], 0x02)
 
     def dev_term(log, limit, plan, dev, ex):
         return ('chk_seldev %s %d 16 false %s ex %s %s'
                 % (c_log(log), limit, c_plan(plan), c_log(dev.log), c_log(dev.deleted)))
 
     # ------------------------------------------------------------ SelEntry decoding
-    for typ in [0x02, 0xc0, 0xc1, 0xdf, 0xe0, 0xfe, 0xff] + [rng.randrange(0xc0, 0x100) for _ in range(10 if q else 60)]:
-        for rep in range(3):
+    # EVERY accepted record type byte in every run: 0x02, 0xC0..0xDF (OEM timestamped), 0xE0..0xFF (OEM
+    # non-timestamped); oracle = independent reading of the record layout per type class
+    ALL_TYPES = [0x02] + list(range(0xc0, 0x100))
+
+    def type_class(t):
+        return 'system' if t == 0x02 else 'oem-timestamped' if t < 0xe0 else 'oem-non-timestamped'
+
+    for typ in ALL_TYPES + [rng.randrange(0xc0, 0x100) for _ in range(10 if q else 60)]:
+        for rep in range(2 if typ != 0x02 else 6):
             r = mk_record(rng, rng.randrange(0x10000), typ)
-            oracle('decode', {'rec': r.hex()}, 'SelEntry._from_response:fields')
-            e = ps.SelEntry(list(r))
-            add('chk_decode %s (Ok %s)' % (C.c_hex(r), c_entry(e)), {'kind': 'decode', 'type': typ})
-            D.add(('dec', r), True, 'decode')
-    for bad in ([0x00, 0x01, 0x03, 0x7f, 0xbf] + [rng.randrange(3, 0xc0) for _ in range(5)]):
+            oracle('decode', {'rec': r.hex()}, 'SelEntry._from_response:' + type_class(typ))
+            try:
+                out = ('ok', ps.SelEntry(list(r)))
+            except Exception as e:  # noqa
+                out = ('err', e)
+            add('chk_decode %s %s' % (C.c_hex(r), c_res(out, c_entry)), {'kind': 'decode', 'type': typ})
+            D.add(('dec', r), True, 'decode ' + type_class(typ))
+    for bad in ([0x00, 0x01, 0x03, 0x04, 0x7f, 0x80, 0xbe, 0xbf] + [rng.randrange(3, 0xc0) for _ in range(8)]):
         r = mk_record(rng, 5, bad)
         try:
             ps.SelEntry(list(r))
@@ -566,6 +581,23 @@ def run(ctx):
                     {'kind': 'entries', 'n': n, 'limit': limit, 'requests': len(ex)})
             D.add(('entries', n, limit, tuple(log)), True, 'entries n=%s limit=%s' % (
                 '0' if n == 0 else '1-5' if n < 6 else '6+', 'whole' if limit == 0xff else 'partial'))
+    # one log that holds a record of EVERY accepted type (65 entries, shuffled), whole-record and partial
+    for limit in (0xff, 16, rng.choice(range(4, 16))):
+        ids = rng.sample(range(1, 0xffff), len(ALL_TYPES))
+        log = [mk_record(rng, i, t) for i, t in zip(ids, rng.sample(ALL_TYPES, len(ALL_TYPES)))]
+        inp = {'log': [r.hex() for r in log], 'limit': limit}
+        oracle('entries', inp, 'get_sel_entries:every-record-type')
+        dev = SelDevice(log, limit, max_requests=20000)
+        out, ex = _run(dev, lambda ipmi: ipmi.get_sel_entries())
+        add('(let ex := %s in chk_entries ex %s && %s)'
+            % (c_ex(ex), c_res(out, lambda v: C.c_list([c_entry(e) for e in v])), dev_term(log, limit, [], dev, ex)),
+            {'kind': 'entries-every-type', 'limit': limit, 'requests': len(ex)})
+        D.add(('entries-types', limit, tuple(log)), True, 'entries every record type')
+    # get-and-clear of records of the boundary types
+    for typ in (0xc0, 0xdf, 0xe0, 0xff):
+        log = [mk_record(rng, 0x10 + k, t) for k, t in enumerate((0x02, typ, 0x02))]
+        inp = {'log': [r.hex() for r in log], 'limit': rng.choice(limits), 'rid': 0x11, 'plan': [None, fresh_early().hex()]}
+        oracle('gac', inp, 'get_and_clear_sel_entry:atomic')
     # device variant that checks offset+length <= 16 before the size limit (pins `16 - req.offset`)
     for limit in range(1, 17):
         log = mk_log(rng, 2)
@@ -792,8 +824,8 @@ def run(ctx):
     res.rule = ('logs of 0..20 entries (thorough: also 30, 50, 100, 200) with random distinct 16-bit ids and record '
                 'types 0x02 / 0xC0..0xFF, every limit 1..16 and whole-record; get_sel_entry by id, 0 and 0xFFFF; '
                 'get-and-clear for every limit with one concurrent change before every request index of a round, '
-                'random plans of 2-4 changes, back-to-back changes; SelEntry decoding on every type class and on '
-                'rejected types/lengths; non-conforming replies. distinct = distinct canonical (kind, log, limit, plan); '
+                'random plans of 2-4 changes, back-to-back changes; SelEntry decoding on EVERY accepted type byte (0x02, 0xC0..0xFF) '
+                'and a 65-entry log holding every type (whole-record, 16, one partial limit) in every run; rejected types/lengths; non-conforming replies. distinct = distinct canonical (kind, log, limit, plan); '
                 'all cases drive a loop against a device or decode a record')
     pick = [0, len(terms) // 3, len(terms) // 2, len(terms) - 1]
     res.samples = [{'case': meta[i], 'term': terms[i][:300]} for i in pick]
